@@ -411,6 +411,59 @@ func checkStreamWriter(p *Program, r *Result) {
 		return short(tb.Term(c.Common().Args[0]).String()) == "Field(Recv.nonce)"
 	}
 	bad := p.MustPass([]Loc{locAfter(seal.(ssa.Instruction))}, isReturn, isInc)
+	// a return that carries an error known to be non-nil needs no increment if every caller
+	// latches that error (stores it in w.err on the err != nil edge before it returns): the
+	// writer is failed from then on and seals nothing more, under this nonce or any other
+	if len(bad) > 0 {
+		latched := true
+		callers := p.Callers(flush)
+		if len(callers) == 0 {
+			latched = false
+		}
+		for _, e := range callers {
+			c, ok := e.Site.(ssa.CallInstruction)
+			if !ok || c.Value() == nil {
+				latched = false
+				continue
+			}
+			ctb := p.TB(e.Caller)
+			// every return of the caller reachable on the error edge lies behind a store to w.err
+			okCaller := false
+			for _, b := range e.Caller.Blocks {
+				for _, in := range b.Instrs {
+					st, isSt := in.(*ssa.Store)
+					if !isSt {
+						continue
+					}
+					fa, isFA := st.Addr.(*ssa.FieldAddr)
+					if !isFA || fieldName(fa.X.Type(), fa.Field) != "err" {
+						continue
+					}
+					if stripConv(st.Val) == c.Value() {
+						// w.err = w.flushChunk(...): stored unconditionally
+						okCaller = true
+					}
+					if _, f := errFactFor(ctb.FactsAt(b), c.Value(), false); f && (stripConv(st.Val) == c.Value() || p.definitelyNonNil(stripConv(st.Val), 0) || pairedErrOf(st.Val, c.Value())) {
+						okCaller = true
+					}
+				}
+			}
+			if !okCaller {
+				latched = false
+			}
+		}
+		if latched {
+			var rest []ssa.Instruction
+			for _, in := range bad {
+				ret, isRet := in.(*ssa.Return)
+				if isRet && len(ret.Results) == 1 && p.nonNilAt(ret.Results[0], ret.Block()) {
+					continue
+				}
+				rest = append(rest, in)
+			}
+			bad = rest
+		}
+	}
 	if len(bad) > 0 {
 		r.Bad(flush.String(), "seal->incNonce", r.pos(bad[0]), "a path from Seal reaches the return at "+r.pos(bad[0])+" without incNonce(&w.nonce): the next chunk would be sealed under the same nonce")
 	} else {
@@ -619,4 +672,23 @@ func boolStr(b bool) string {
 		return "true"
 	}
 	return "false"
+}
+
+// pairedErrOf: v is (a conversion of) the error value call, or of a merge/extract of it.
+func pairedErrOf(v ssa.Value, call ssa.Value) bool {
+	v = stripConv(v)
+	if v == call {
+		return true
+	}
+	if ex, ok := v.(*ssa.Extract); ok && ex.Tuple == call {
+		return true
+	}
+	if ph, ok := v.(*ssa.Phi); ok {
+		for _, e := range ph.Edges {
+			if stripConv(e) == call {
+				return true
+			}
+		}
+	}
+	return false
 }
